@@ -1337,12 +1337,14 @@ std::ostream& expression_t::print(std::ostream& os, bool old) const
 
     case UNARY_MINUS: {
         os << '-';
-        const auto& operand = get(0);
-        const auto* number = operand.get_kind() == CONSTANT ? std::get_if<int32_t>(&operand.data->value) : nullptr;
-        if (number != nullptr && *number < 0)  // "--2147483648" would be read as a decrement
-            operand.print(os << '(', old) << ')';
+        // an operand text that starts with '-' ("-2147483648", "-2147483648++") would fuse into a decrement
+        std::ostringstream operand;
+        embrace(operand, old, get(0), precedence);
+        const auto text = operand.str();
+        if (!text.empty() && text.front() == '-')
+            os << '(' << text << ')';
         else
-            embrace(os, old, operand, precedence);
+            os << text;
         break;
     }
 
